@@ -48,7 +48,7 @@ func run(c *vlib.Ctx) {
 	} else {
 		os.Remove(probe)
 	}
-	c.Cases("hist", c.N(1000, 30000), oneHistory)
+	c.Cases("hist", c.N(1000, 20000), oneHistory)
 }
 
 var codec = base32.StdEncoding.WithPadding(base32.NoPadding)
